@@ -157,7 +157,7 @@ def _privatise(t):
     return t
 
 
-def generate(unit, repo, vacuity=False):
+def generate(unit, repo, vacuity=False, falsify=False):
     from . import extract as _ex
     _ex.FEATURES = set(unit.features) if unit.features is not None else {'parallel'}
     _ex.Source._cache.clear()
@@ -234,6 +234,7 @@ def generate(unit, repo, vacuity=False):
             if spec.n4:
                 text, r = A.n4_unwrap_or_else(text); norms += r
                 text, r = A.n4b_ok_and_then(text); norms += r
+                text, r = A.n4d_then_filter(text); norms += r
             if spec.n4c:
                 text, r = A.n4c_map(text); norms += r
             if spec.n16:
@@ -338,14 +339,13 @@ def generate(unit, repo, vacuity=False):
         full += out
         line += n
     full += '} // verus!\nfn main() {}\n'
+    if falsify:
+        # plumbing self-test (dev only): every postcondition / invariant clause is conjoined with `false`, so each registered
+        # obligation of those kinds must come back as a FAILED obligation under its registered name
+        full = re.sub(r'(/\*@L:(?:ens|trait|loop\d+\.(?:inv|ens)|closure)[^*]*\*/)(.*?)(/\*@E\*/)',
+                      lambda m: '%s ((%s) && false) %s' % (m.group(1), m.group(2).strip(), m.group(3)), full, flags=re.S)
     g.text = full
-    # label regions
-    for m in re.finditer(r'/\*@L:([^*]+)\*/(.*?)/\*@E\*/', full, re.S):
-        a = full.count('\n', 0, m.start()) + 1
-        b = full.count('\n', 0, m.end()) + 1
-        ca = m.start() - (full.rfind('\n', 0, m.start()) + 1) + 1
-        cb = m.end() - (full.rfind('\n', 0, m.end()) + 1) + 1
-        g.labels.append((a, ca, b, cb, m.group(1)))
+    g.labels = label_regions(full)
     # lemmas in spec text: `proof fn name` preceded by `//@props ...`
     for m in re.finditer(r'(?://@props\s+([^\n]*)\n\s*)?(?:pub\s+)?(?:broadcast\s+)?proof\s+fn\s+(\w+)', full):
         a = full.count('\n', 0, m.start()) + 1
@@ -355,6 +355,17 @@ def generate(unit, repo, vacuity=False):
         if props:
             g.obligations['%s::lemma::%s' % (unit.name, m.group(2))] = dict(props=props, fn='lemma::' + m.group(2), kind='lemma', expr='proof fn ' + m.group(2))
     return g
+
+
+def label_regions(full):
+    out = []
+    for m in re.finditer(r'/\*@L:([^*]+)\*/(.*?)/\*@E\*/', full, re.S):
+        a = full.count('\n', 0, m.start()) + 1
+        b = full.count('\n', 0, m.end()) + 1
+        ca = m.start() - (full.rfind('\n', 0, m.start()) + 1) + 1
+        cb = m.end() - (full.rfind('\n', 0, m.end()) + 1) + 1
+        out.append((a, ca, b, cb, m.group(1)))
+    return out
 
 
 def not_under_contract(unit, repo):
